@@ -83,8 +83,15 @@ fn main() {
     match cmd {
         "run" => {
             let t0 = std::time::Instant::now();
-            let mut c = Ctx::new(prop_static, seed, tier, engine, shard, nshards, out);
+            let mut c = Ctx::new(prop_static, seed, tier, engine, shard, nshards, out.clone());
             c.logger_on = logger;
+            // interpreters and valgrind are orders of magnitude slower: their bound is only a backstop
+            let bound = match engine {
+                Engine::Miri | Engine::Memcheck => 3600.0,
+                Engine::Asan => 180.0,
+                _ => 60.0,
+            };
+            ctx::start_progress_watchdog(prop_static, seed, engine, shard, out, bound);
             let mut idx = start + shard;
             while idx < start + ops {
                 c.begin_case(idx);
@@ -111,6 +118,7 @@ fn main() {
             let index = num("index", 0);
             let mut c = Ctx::new(prop_static, seed, tier, engine, 0, 1, None);
             c.replaying = true;
+            ctx::start_progress_watchdog(prop_static, seed, engine, 0, None, if matches!(engine, Engine::Miri | Engine::Memcheck) { 3600.0 } else { 60.0 });
             c.logger_on = logger;
             println!("replaying {} seed={} tier={:?} engine={} index={}", prop, seed, tier, engine.name(), index);
             c.begin_case(index);
